@@ -262,7 +262,7 @@ def build(spec, res=None):
             if res is not None:
                 res.count('ops_giving_empty')
             continue
-        if n > 400:
+        if n > 200:
             if res is not None:
                 res.count('ops_skipped_too_large')
             continue
